@@ -27,6 +27,7 @@ func NewHealthHandler(user *user.User) *HealthHandler {
 			serverMessages:   make(chan string, 10),
 			maprMessages:     make(chan string, 10),
 			ackCloseReceived: make(chan struct{}),
+			flushed:          make(chan struct{}),
 			user:             user,
 		},
 	}
